@@ -17,7 +17,8 @@ VARIABLES l
 Trace == ndJsonDeserialize(TraceFile)
 
 \* ---- C14: the implementation's stream is the reference stream ---------------
-KindOK(s, t) == \/ s.k = t.k
+KindOK(s, t) == \/ s.k = t.k /\ s.k # "kw"
+                \/ s.k = "kw" /\ t.k = "kw" /\ s.v = t.v
                 \/ s.k \in {"p1", "p2"} /\ t.k = "punct" /\ s.v = t.v
 ValOK(s, t) == s.k \in {"<ident>", "<param>", "<string>", "<bytes>"} => s.v = t.v
 CommentsOK(s, t) == /\ Len(s.cs) = Len(t.cs)
